@@ -1,17 +1,22 @@
 /-
   C04 — a live epoch guard pins its epoch.
-  What is proved: (i) a pinned epoch that the coordinator's scan collects is a member of the vector
-  published for the new epoch and the stored minimum does not exceed it (any collected multiset);
-  (ii) the slot of a running thread always carries that thread's unexpired heartbeat once bound —
-  this rests on C15 (`c15_free_slot_all_expired`, `c15_unexpired_unique`): an ID is never handed out
-  while an earlier heartbeat for it is unexpired, so `CreateEpochGuard`'s `expired()` test rebinds a
-  reused slot.  The interleaving argument connecting (i) and (ii) — a guard created completely
-  before the scan starts is seen by the scan — is validated by the correspondence check and the `pin`
-  monitor on every implementation trace, not mechanised.
-  Known finding F10: a thread holding two guards at once (see known_findings.json).
+  `c04_protocol` (Props/EpochProtoThm.lean): on the interleaving model of the epoch protocol
+  (`Model/EpochProto.lean`: any capacity, any number of threads with ID reuse, every schedule of the atomic
+  steps of GetHeartBeater / ~HeartBeater / CreateEpochGuard / ~EpochGuard / ForwardGlobalEpoch), every guard
+  that was complete when a forward started and is alive when it is about to return is in the vector published
+  for the new epoch, and the stored minimum does not exceed it.  The proof needs the exit order "heartbeat
+  expires before the flag is cleared" (read from the source: `Gen.heartbeatExpiresFirst`);
+  `c04_protocol_fails_with_original_exit_order` exhibits the lost guard under the other order.
+  Building blocks used by it and by the thread-level model: (i) a pinned epoch that the coordinator's scan
+  collects is a member of the published vector and the minimum does not exceed it; (ii) C15
+  (`c15_free_slot_all_expired`, `c15_unexpired_unique`): an ID is never handed out while an earlier heartbeat
+  for it is unexpired, so `CreateEpochGuard`'s `expired()` test rebinds a reused slot.
+  The protocol model is tied to the code through the thread-level model: lockstep on every replayed trace
+  (`Model/EpochLock.lean`).  Premise: one guard per thread at a time — two at once is known finding F10.
 -/
 import CppUtil.Proofs.EpochSeq
 import CppUtil.Props.C15
+import CppUtil.Props.EpochProtoThm
 
 namespace CppUtil.Props
 open CppUtil CppUtil.Epoch
